@@ -84,4 +84,50 @@ example :
   refine ⟨_, ⟨[.mint 0, .acquire 0, .testPass 0, .insert 0, .enqueue 0, .mint 1, .acquire 1, .reject 1], rfl⟩, ?_⟩
   decide
 
+/-- the state after caller `r` (not yet started) has been accepted -/
+def accepted (s : State) (r : Nat) : State :=
+  { s with callers := s.callers.set r { pc := .pending, uid := some s.nextUid, fut := .pending, bp := true },
+           nextUid := s.nextUid + 1, ledger := s.ledger ++ [(s.nextUid, r)],
+           inflight := s.inflight ++ [(s.nextUid, r)], lock := none }
+
+/-- one more caller is accepted: from a state with the lock free, room in the ledger and caller `r` not yet
+    started, the five steps `mint, acquire, testPass, insert, enqueue` of `r` are enabled in a row -/
+theorem accept_one (c : Cfg) (s : State) (r : Nat) (hl : s.lock = none) (hr : r < s.callers.length)
+    (hnew : s.get r = {}) (hroom : s.ledger.length < c.cap) :
+    Core.run (step c) s [.mint r, .acquire r, .testPass r, .insert r, .enqueue r] = some (accepted s r) := by
+  have h2 : s.callers[r] = {} := by simpa [State.get, hr] using hnew
+  simp [Core.run, step, hr, hl, hroom, State.set, State.get, h2, accepted]
+
+theorem fill_reachable (c : Cfg) (k : Nat) (hk : k ≤ c.cap) :
+    ∃ s, Reachable c (List.replicate c.cap {}) s ∧ s.lock = none ∧ s.ledger.length = k ∧
+      s.callers.length = c.cap ∧ ∀ r, k ≤ r → s.get r = {} := by
+  induction k with
+  | zero =>
+    refine ⟨init (List.replicate c.cap {}), Core.Reach.refl _ _, rfl, rfl, by simp [init], ?_⟩
+    intro r _
+    simp [State.get, init, List.getD_eq_getElem?_getD, List.getElem?_replicate]
+    split <;> rfl
+  | succ k ih =>
+    obtain ⟨s, ⟨as, has⟩, hl, hlen, hcl, hnew⟩ := ih (by omega)
+    have hstep := accept_one c s k hl (by omega) (hnew k (Nat.le_refl _)) (by omega)
+    refine ⟨accepted s k, ⟨as ++ [.mint k, .acquire k, .testPass k, .insert k, .enqueue k], ?_⟩, rfl, ?_, ?_, ?_⟩
+    · rw [Core.run_append, has]; exact hstep
+    · simp [accepted, hlen]
+    · simp [accepted, hcl]
+    · intro r hr
+      have := hnew r (by omega)
+      unfold State.get at this ⊢
+      simp only [accepted]
+      rw [getD_set]
+      have hne : ¬ (k = r ∧ k < s.callers.length) := by omega
+      rw [if_neg hne]; exact this
+
+/-- **C06, tightness for every capacity**: the bound of `C06_bound` is attained — with `cap` callers the
+    backlog reaches exactly `cap` (each caller accepted in turn), for every `cap`; the non-vacuity `example`
+    below shows one instance together with the rejection of the next caller. -/
+theorem C06_bound_attained (c : Cfg) :
+    ∃ s, Reachable c (List.replicate c.cap {}) s ∧ s.ledger.length = c.cap := by
+  obtain ⟨s, hr, _, hlen, _⟩ := fill_reachable c c.cap (Nat.le_refl _)
+  exact ⟨s, hr, hlen⟩
+
 end Ledger
